@@ -290,7 +290,8 @@ def wait_cancellable(ctx):
     r = ctx.r
     f = ctx.f
     n = 0
-    scope = [b for b in f.user_bodies() if b in r.script_runners() or any(b is x for x in _service_bodies(r))]
+    scope = list(r.script_runners()) + [r.V(x) for x in _service_bodies(r) if not any(r.contains(y, x) for y in _service_bodies(r))]
+    scope = [b for i, b in enumerate(scope) if not any(b.name == c.name for c in scope[:i])]
     for b in scope:
         waits = [(bb, t) for bb, t in b.calls() if is_process_wait(t["callee"]["base"]) and t["callee"]["base"].endswith("Child::status") or t["callee"] and t["callee"]["base"].endswith("Child::wait")]
         for (bb, t) in waits:
@@ -396,13 +397,14 @@ def spawn_owned(ctx):
                 ctx.bad(f"{short(b.name)}/std-process", [site(b, bb)], "a blocking std::process call in async code")
             continue  # Command::output of cmd_stdout helpers: out of the property's letter (DESIGN C10 'not decided')
         fl = b.prov.flows_forward(t["dest"]["local"])
-        if b in r.script_runners():
+        if r.is_role(r.script_runners(), b):
             arms = arm_by_payload(b, lambda p: "BuildCancellationMessage" in p)
             covered = any(is_process_kill(kt["callee"]["base"]) and kb in arm.region and _refers(b, operand_local(kt["args"][0]), fl) for arm in arms for kb, kt in b.calls())
             ctx.check(covered, f"{short(b.name)}/build-shell", [site(b, bb)], "the spawned build shell is not the child killed by the cancellation arm")
         else:
-            stored = [x for (wb, x, st) in r.field_writes("service_process", "ServiceTargetActor") if wb is b and any(operand_local(o) in fl for o in ([st["rv"]["op"]] if st["rv"]["k"] == "use" else st["rv"].get("ops", [])))]
-            stored2 = [x for (wb, x, st) in r.field_writes("service_process", "ServiceTargetActor") if wb is b and b.dominates(bb, x)]
+            slot_writes = [(x["id"], st) for x in b.normal_blocks() for st in x["stmts"] if st["lhs"]["proj"] and st["lhs"]["proj"][-1]["k"] == "field" and st["lhs"]["proj"][-1]["name"] == "service_process"]
+            stored = [x for (x, st) in slot_writes if any(operand_local(o) in fl for o in ([st["rv"]["op"]] if st["rv"]["k"] == "use" else st["rv"].get("ops", [])))]
+            stored2 = [x for (x, st) in slot_writes if b.dominates(bb, x)]
             ctx.check(bool(stored or stored2) and bool(stop_fns(ctx)), f"{short(b.name)}/service-shell", [site(b, bb)], "the spawned service shell is not stored in the process slot that the stop function empties")
 
 
@@ -603,7 +605,7 @@ def stop_dominates_spawn(ctx):
     stops = {r.fn_of(s).name for s in stop_fns(ctx)}
     n = 0
     for (b, bb, t) in r.spawn_sites():
-        if b in r.script_runners() or not t["callee"]["base"].endswith("Command::spawn"):
+        if r.is_role(r.script_runners(), b) or not t["callee"]["base"].endswith("Command::spawn"):
             continue
         n += 1
         aw = [a for a in awaits(b) if a.callee in stops and a.ready_bb is not None and b.dominates(a.ready_bb, bb)]
